@@ -46,9 +46,11 @@ impl GlobalConstantPropagator {
             }
             TypedExprKind::Lambda(inner) => self.substitute_constants(inner),
             TypedExprKind::LambdaInner { body, .. } => {
+                self.deferred += 1;
                 for stmt in body {
                     self.substitute_in_stmt(stmt);
                 }
+                self.deferred -= 1;
             }
             TypedExprKind::Member { object, .. } => self.substitute_constants(object),
             TypedExprKind::ArrayLiteral { elements, .. }
@@ -162,9 +164,11 @@ impl GlobalConstantPropagator {
 
     fn substitute_in_function(&mut self, func: &mut TypedFunction) {
         self.fn_depth += 1;
+        self.deferred += 1;
         for stmt in &mut func.body {
             self.substitute_in_stmt(stmt);
         }
+        self.deferred -= 1;
         self.fn_depth -= 1;
     }
 
@@ -172,6 +176,9 @@ impl GlobalConstantPropagator {
     // is an earlier statement, or if it sits in the body of a function declared among the
     // leading declarations of the program, none of which can call it before the `let` runs
     fn may_substitute(&self, name: &str) -> bool {
+        if self.top_level_open && self.deferred > 0 {
+            return false;
+        }
         match self.positions.get(name) {
             Some(pos) => *pos < self.cursor || (self.fn_depth > 0 && *pos < self.first_effect),
             None => false,
